@@ -354,7 +354,7 @@ impl Property for C18Prop {
     }
     fn workloads(&self, tier: Tier) -> u64 {
         match tier {
-            Tier::Quick => 320,
+            Tier::Quick => 640,
             Tier::Thorough => 8_000,
         }
     }
